@@ -159,6 +159,7 @@ BeginGetUtxo(m) ==
 \* chain fetching filters and blocks.
 BeginRescan(m) ==
   /\ CanBegin(K_RESCAN)
+  /\ m = 1 => cs[K_SYNC].pc = "off"       \* (walk x mid-sync not explored: state space)
   /\ acts' = Append(acts, [k |-> K_RESCAN, m |-> m])
   /\ cs' = [cs EXCEPT ![K_RESCAN] = [st |-> C_PENDING, pc |-> IF m = 0 THEN "reg" ELSE "next"]]
   /\ UNCHANGED <<pool, q, g, bat, err, tries, w, mtx, ux, bc, sb, misc>>
@@ -187,6 +188,7 @@ BeginSub ==
 \* fetching filter headers (checkpoint queries, batches, dispute resolution).
 BeginSync(m) ==
   /\ CanBegin(K_SYNC) /\ pool # P_EMPTY /\ g.sp = "idle"
+  /\ \A i \in 1..Len(acts) : ~(acts[i].k = K_RESCAN /\ acts[i].m = 1)
   /\ acts' = Append(acts, [k |-> K_SYNC, m |-> m])
   /\ cs' = [cs EXCEPT ![K_SYNC] = [st |-> C_NONE, pc |-> IF m = 0 THEN "hdr" ELSE "cfh"]]
   /\ UNCHANGED <<pool, q, g, bat, err, tries, w, mtx, ux, bc, sb, misc>>
@@ -408,17 +410,27 @@ GetCFHit ==
   /\ UNCHANGED <<pool, q, g, bat, err, tries, w, mtx, ux, bc, sb, acts, misc>>
   /\ Finish(A("Ret", K_GETCF, 0, C_LEGIT, "ok"))
 
-\* query.go:768
-GetCFRet ==
+\* query.go:768 select { errChan | s.quit }; the deferred mtxCFilter.Unlock runs
+\* before the caller has the result in hand
+RetPc(c) == CASE c = C_SHUT -> "ret_s" [] c = C_CANCEL -> "ret_c" [] OTHER -> "ret_l"
+PcClass(p) == CASE p = "ret_s" -> C_SHUT [] p = "ret_c" -> C_CANCEL [] OTHER -> C_LEGIT
+
+GetCFGot ==
   /\ Pending(K_GETCF) /\ Pc(K_GETCF) = "wait"
   /\ \/ /\ err["cf"] # "none"
-        /\ cs' = Return(K_GETCF, ClassOf(err["cf"]))
+        /\ cs' = SetPc(K_GETCF, RetPc(ClassOf(err["cf"])))
         /\ err' = [err EXCEPT !["cf"] = "none"]
      \/ /\ Closed("S") /\ err["cf"] = "none"
-        /\ cs' = Return(K_GETCF, C_SHUT)
+        /\ cs' = SetPc(K_GETCF, "ret_s")
         /\ UNCHANGED err
   /\ mtx' = "free"
   /\ UNCHANGED <<pool, q, g, bat, tries, w, ux, bc, sb, acts, misc>>
+  /\ Finish(I("GetCFGot"))
+
+GetCFRet ==
+  /\ Pending(K_GETCF) /\ Pc(K_GETCF) \in {"ret_s", "ret_c", "ret_l"}
+  /\ cs' = Return(K_GETCF, PcClass(Pc(K_GETCF)))
+  /\ UNCHANGED <<pool, q, g, bat, err, tries, w, mtx, ux, bc, sb, acts, misc>>
   /\ Finish(A("Ret", K_GETCF, 0, cs'[K_GETCF].st, "ok"))
 
 ----------------------------------------------------------------------------
@@ -595,7 +607,12 @@ FwdTake(s) ==
 FwdDeliver(s) ==
   /\ sb.fwd[s] = "send"
   /\ sb' = [sb EXCEPT !.fwd[s] = "wait"]
-  /\ UNCHANGED <<g, cs>> /\ SbFrame
+  \* a current rescan with a watch list fetches the new block's filter (handleBlockConnected :961)
+  \* (bounded: one such fetch per behaviour, and only for a rescan that did not walk)
+  /\ LET fetch == s = "r" /\ Pending(K_RESCAN) /\ Pc(K_RESCAN) = "cur" /\ misc.rsn = 0 IN
+     /\ cs' = IF fetch THEN SetPc(K_RESCAN, "flock") ELSE cs
+     /\ misc' = IF fetch THEN [misc EXCEPT !.rsn = MaxRs] ELSE misc
+  /\ UNCHANGED <<g, pool, q, bat, err, tries, w, mtx, ux, bc, acts>>
   /\ Finish(I("FwdDeliver"))
 
 \* <-sub.quit | <-m.quit
@@ -765,23 +782,48 @@ RsFLock ==
   /\ UNCHANGED <<g, err, misc>> /\ RsFrame
   /\ Finish(I("RsFLock"))
 
-\* GetCFilter / GetBlock returned to the rescan goroutine
+\* the rescan is "current" (follows notifications) once it has subscribed
+RCur == "r" \in sb.subs
+
+\* GetCFilter / GetBlock returned to the rescan goroutine.  Walking
+\* (notifyBlock :854): an error ends the rescan.  Current
+\* (handleBlockConnected :899): a filter error means errRetryBlock - try again
+\* in 100 ms :601, a block error ends it (via current = false).
 RsGot(match) ==
   /\ Pending(K_RESCAN) /\ Pc(K_RESCAN) \in {"filter", "block"}
   /\ err["rs"] # "none" \/ Closed("S")
   /\ LET e == IF err["rs"] # "none" THEN err["rs"] ELSE "shut"
          p == Pc(K_RESCAN)
+         back == IF RCur THEN "cur" ELSE "next"
      IN  /\ err' = [err EXCEPT !["rs"] = "none"]
          /\ mtx' = IF p = "filter" THEN "free" ELSE mtx
          /\ IF e = "ok"
-            THEN /\ cs' = SetPc(K_RESCAN, IF ~match THEN "next" ELSE IF p = "filter" THEN "block" ELSE "mark")
+            THEN /\ match => ~RCur          \* (block fetch / MarkAsConfirmed only modelled for the walk)
+                 /\ cs' = SetPc(K_RESCAN, IF ~match THEN back ELSE IF p = "filter" THEN "block" ELSE "mark")
                  /\ bat' = IF match /\ p = "filter" THEN [bat EXCEPT !["rs"] = "sub"] ELSE bat
-                 /\ UNCHANGED <<g, misc>> /\ RsFrame
-                 /\ Finish(I("RsGot"))
+                 /\ UNCHANGED misc
             ELSE /\ ~match
-                 /\ cs' = Return(K_RESCAN, ClassOf(e))       \* rescan returns the error
-                 /\ UNCHANGED <<g, bat, misc>> /\ RsFrame
-                 /\ Finish(A("Ret", K_RESCAN, 0, ClassOf(e), "ok"))
+                 /\ UNCHANGED bat
+                 /\ IF RCur /\ p = "filter"
+                    THEN cs' = SetPc(K_RESCAN, "cur") /\ misc' = [misc EXCEPT !.rretry = TRUE]
+                    ELSE cs' = SetPc(K_RESCAN, RetPc(ClassOf(e))) /\ UNCHANGED misc
+  /\ UNCHANGED g /\ RsFrame
+  /\ Finish(I("RsGot"))
+
+\* blockRetrySignal :636
+RsRetry ==
+  /\ Pending(K_RESCAN) /\ Pc(K_RESCAN) = "cur" /\ misc.rretry
+  /\ cs' = SetPc(K_RESCAN, "flock")
+  /\ misc' = [misc EXCEPT !.rretry = FALSE]
+  /\ UNCHANGED <<g, bat, err, mtx>> /\ RsFrame
+  /\ Finish(I("RsRetry"))
+
+\* the rescan goroutine hands its error to the caller (Start :1415)
+RsRet ==
+  /\ Pending(K_RESCAN) /\ Pc(K_RESCAN) \in {"ret_s", "ret_c", "ret_l"}
+  /\ cs' = Return(K_RESCAN, PcClass(Pc(K_RESCAN)))
+  /\ UNCHANGED <<g, bat, err, mtx, misc>> /\ RsFrame
+  /\ Finish(A("Ret", K_RESCAN, 0, cs'[K_RESCAN].st, "ok"))
 
 \* extractBlockMatches :1056 broadcaster.MarkAsConfirmed: b.confChan <- txHash
 \* (pushtx/broadcaster.go:320; no quit case unless FixBR1); received by the
@@ -789,7 +831,7 @@ RsGot(match) ==
 RsMark ==
   /\ Pending(K_RESCAN) /\ Pc(K_RESCAN) = "mark"
   /\ g.bch = "sel" \/ (FixBR1 /\ Closed("B"))
-  /\ cs' = SetPc(K_RESCAN, "next")
+  /\ cs' = SetPc(K_RESCAN, IF RCur THEN "cur" ELSE "next")
   /\ UNCHANGED <<g, bat, err, mtx, misc>> /\ RsFrame
   /\ Finish(I("RsMark"))
 
@@ -845,7 +887,7 @@ Init ==
            squit |-> {}]
   /\ acts = <<>>
   /\ cs = [k \in AllKinds |-> [st |-> C_NONE, pc |-> "off"]]
-  /\ misc = [pdisc |-> FALSE, reopen |-> R_NOT, rsn |-> 0, dial |-> IF g.dial = "dialing" THEN 1 ELSE 0]
+  /\ misc = [pdisc |-> FALSE, reopen |-> R_NOT, rsn |-> 0, rretry |-> FALSE, dial |-> IF g.dial = "dialing" THEN 1 ELSE 0]
   /\ abs = AbsInit
   /\ act = [op |-> "Init", k |-> 0, m |-> 0, cls |-> 0, res |-> "ok", at |-> NoAt]
   /\ viol = {}
@@ -862,7 +904,7 @@ Internal ==
   \/ DispWake \/ DispQuit
   \/ \E r \in {"ok", "timeout", "disc", "cancel"} : WorkerEnd(r)
   \/ WorkerQuit
-  \/ GetBlockRet \/ GetCFLock \/ GetCFHit \/ GetCFRet
+  \/ GetBlockRet \/ GetCFLock \/ GetCFHit \/ GetCFGot \/ GetCFRet
   \/ GetUtxoRet \/ BmSignal \/ BmWake \/ BmTop \/ BmCfLock
   \/ \E b \in BOOLEAN : BmGot(b)
   \/ SendTxSubmit \/ BchBcastEnd \/ SendTxRet \/ BchRebroadcast \/ RbEnd \/ BchQuit \/ BchCancelSub
@@ -878,7 +920,7 @@ Internal ==
   \/ CfhNtfn
   \/ CfhRetryEnd \/ CfhCpqEnd \/ CfhGetblkEnd \/ CfhCheck
   \/ \E b \in BOOLEAN : RsNext(b) \/ RsGot(b)
-  \/ RsFLock \/ RsMark
+  \/ RsFLock \/ RsMark \/ RsRetry \/ RsRet
   \/ BwQuit \/ PhQuit \/ DialEnd
 
 Next == Env \/ Internal
@@ -896,13 +938,13 @@ Fair ==
   /\ WF_vars(DispWake) /\ WF_vars(DispQuit)
   /\ WF_vars(\E r \in {"ok", "timeout", "disc", "cancel"} : WorkerEnd(r))
   /\ WF_vars(WorkerQuit)
-  /\ WF_vars(GetBlockRet) /\ WF_vars(GetCFLock) /\ WF_vars(GetCFRet)
+  /\ WF_vars(GetBlockRet) /\ WF_vars(GetCFLock) /\ WF_vars(GetCFGot) /\ WF_vars(GetCFRet)
   /\ WF_vars(GetUtxoRet) /\ WF_vars(BmSignal) /\ WF_vars(BmWake) /\ WF_vars(BmTop) /\ WF_vars(BmCfLock)
   /\ WF_vars(\E b \in BOOLEAN : BmGot(b))
   /\ WF_vars(SendTxSubmit) /\ WF_vars(BchBcastEnd) /\ WF_vars(SendTxRet) /\ WF_vars(RbEnd)
   /\ WF_vars(BchQuit) /\ WF_vars(BchCancelSub)
   /\ WF_vars(Register(K_SUB, "u", "read")) /\ WF_vars(Register(K_RESCAN, "r", "cur"))
-  /\ WF_vars(ReaderRet(K_SUB, "u")) /\ WF_vars(ReaderRet(K_RESCAN, "r"))
+  /\ WF_vars(ReaderRet(K_SUB, "u")) /\ SF_vars(ReaderRet(K_RESCAN, "r"))
   /\ \A s \in SubIds : WF_vars(FwdQuit(s))
   /\ WF_vars(SubhQuit)
   /\ WF_vars(BlkhNtfn) /\ SF_vars(BlkhQuit)
@@ -912,7 +954,7 @@ Fair ==
   /\ WF_vars(CfhNtfn)
   /\ WF_vars(CfhRetryEnd) /\ WF_vars(CfhCpqEnd) /\ WF_vars(CfhGetblkEnd) /\ WF_vars(CfhCheck)
   /\ WF_vars(\E b \in BOOLEAN : RsNext(b)) /\ WF_vars(\E b \in BOOLEAN : RsGot(b))
-  /\ WF_vars(RsFLock) /\ WF_vars(RsMark)
+  /\ WF_vars(RsFLock) /\ WF_vars(RsMark) /\ WF_vars(RsRetry) /\ WF_vars(RsRet)
   /\ WF_vars(BwQuit) /\ WF_vars(PhQuit) /\ WF_vars(DialEnd)
 
 LSpec == Spec /\ Fair
@@ -959,7 +1001,8 @@ PCS == <<"idle", "connmgr", "bcast_wait", "utxo_wait", "wm_wait", "sub_wait", "s
          "sel", "bcast", "cancelsub", "ntfn", "first", "qall", "cpq", "retry", "check", "dialing",
          "wait", "send", "sub", "queued", "ok", "fail", "shut", "cancel", "timeout", "disc",
          "free", "cf", "ux", "rs", "gb", "ch", "cg", "open", "closed", "off", "lock", "reg", "next",
-         "flock", "filter", "block", "mark", "read", "waitblk", "cur", "hdr", "cfh", "ret">>
+         "flock", "filter", "block", "mark", "read", "waitblk", "cur", "hdr", "cfh", "ret",
+         "ret_s", "ret_c", "ret_l">>
 PIdx == [v \in {PCS[i] : i \in 1..Len(PCS)} |-> CHOOSE i \in 1..Len(PCS) : PCS[i] = v]
 Ix(seq, v) == PIdx[v]
 OSEQ == <<"gb", "cf", "ux", "rs", "ch", "cg">>
@@ -984,6 +1027,6 @@ State == <<pool>>
          \o [i \in 1..Len(acts) |-> 10 * acts[i].k + acts[i].m]
          \o <<99>>
          \o [i \in 1..7 |-> 100 * cs[i].st + Ix(PCS, cs[i].pc)]
-         \o <<B2I(misc.pdisc), misc.reopen, misc.rsn, misc.dial, B2I(abs.stopped)>>
+         \o <<B2I(misc.pdisc), misc.reopen, misc.rsn, B2I(misc.rretry), misc.dial, B2I(abs.stopped)>>
 View  == <<pool, q, g, bat, err, tries, w, mtx, ux, bc, sb, acts, cs, misc, abs>>
 =============================================================================
